@@ -19,8 +19,10 @@ from pathlib import Path
 ROOT = Path(__file__).resolve().parent.parent
 LEAN = ROOT / "lean"
 REPO = Path(os.environ.get("VERIF_REPO", "/repo"))
-EVID = ROOT / "evidence"
-REPLAYS = ROOT / "replays"
+# runs against scratch worktrees (seeded defects) must not overwrite the evidence / replays of the registered checks:
+# harness/regress_mutants.sh points these two somewhere else
+EVID = Path(os.environ.get("VERIF_EVIDENCE_DIR") or ROOT / "evidence")
+REPLAYS = Path(os.environ.get("VERIF_REPLAYS_DIR") or ROOT / "replays")
 CORPUS = ROOT / "corpus"
 KNOWN = ROOT / "known_findings.txt"
 ALLOWED_AXIOMS = {"propext", "Classical.choice", "Quot.sound"}
@@ -333,7 +335,7 @@ def write_replay(pid: str, name: str, data: dict) -> str:
     h = hashlib.sha256(json.dumps(data, sort_keys=True, default=str).encode()).hexdigest()[:10]
     p = REPLAYS / f"{pid}_{name}_{h}.json"
     p.write_text(json.dumps(data, indent=1, sort_keys=True, default=str))
-    return str(p.relative_to(ROOT))
+    return str(p.relative_to(ROOT)) if p.is_relative_to(ROOT) else str(p)
 
 
 def finish(ctx: Ctx, level_note_tb: list[str], checker_cmd: str, assumptions: list[str]) -> int:
